@@ -5,6 +5,7 @@ package main
 import (
 	"encoding/hex"
 	"fmt"
+	"time"
 
 	"github.com/folbricht/desync"
 
@@ -196,6 +197,10 @@ func c03Generate(e *c03Env, rnd *vh.Rand) error {
 		leafKinds = append(leafKinds, "sftp")
 	}
 
+	t0 := time.Now()
+	lap := func(what string) {
+		e.r.Note("section %s: %d cases so far, %.1fs", what, g.n, time.Since(t0).Seconds())
+	}
 	// A. every backend x format x damage kind x size class, bare
 	for _, kind := range leafKinds {
 		for _, unc := range []bool{false, true} {
@@ -217,6 +222,7 @@ func c03Generate(e *c03Env, rnd *vh.Rand) error {
 			}
 		}
 	}
+	lap("A bare backends")
 	// A'. the network front ends over a damaged local store: desync's HTTP handler (server
 	// side verifying or not, matching or different converters), the casync protocol in-process,
 	// RemoteSSH + `desync pull`
@@ -246,7 +252,7 @@ func c03Generate(e *c03Env, rnd *vh.Rand) error {
 			case 5:
 				st = g.wrap("proto", g.leaf("local", g.rnd.Bool(), g.rnd.Bool()))
 			case 6:
-				if e.fakeSSH == "" || (!thorough && g.rnd.Chance(1, 2)) {
+				if !e.sshOK || (!thorough && g.rnd.Chance(1, 2)) {
 					continue
 				}
 				g.nk++
@@ -258,6 +264,7 @@ func c03Generate(e *c03Env, rnd *vh.Rand) error {
 			}
 		}
 	}
+	lap("A' front ends")
 	// B. wrappers: the damaged object in every position, the other positions good or missing
 	type shape struct {
 		name  string
@@ -265,7 +272,15 @@ func c03Generate(e *c03Env, rnd *vh.Rand) error {
 	}
 	lk := func() string { return leafKinds[g.rnd.Intn(len(leafKinds))] }
 	L := func() *c03Node { return g.leaf(lk(), g.rnd.Bool(), false) }
-	WL := func() *c03Node { return g.leaf("local", g.rnd.Bool(), false) }
+	WL := func() *c03Node { // a writable leaf: mostly a local directory, sometimes S3 or SFTP
+		kind := "local"
+		if g.rnd.Chance(1, 4) {
+			if k := lk(); k != "http" {
+				kind = k
+			}
+		}
+		return g.leaf(kind, g.rnd.Bool(), false)
+	}
 	shapes := []shape{
 		{"cache", func() *c03Node { return g.wrap("cache", L(), WL()) }},
 		{"cache-repair", func() *c03Node { return g.wrap("cache", L(), g.wrap("repair", WL())) }},
@@ -319,6 +334,7 @@ func c03Generate(e *c03Env, rnd *vh.Rand) error {
 			}
 		}
 	}
+	lap("B wrappers")
 	// C. random nestings of depth <= 3 (4 in the thorough tier), random damage everywhere,
 	// verification disabled on some leaves
 	nrand := 500
@@ -348,6 +364,7 @@ func c03Generate(e *c03Env, rnd *vh.Rand) error {
 			return err
 		}
 	}
+	lap("C random nestings")
 	// D. transient and permanent transport faults on the HTTP paths, retries
 	nfault := 150
 	if thorough {
@@ -358,7 +375,13 @@ func c03Generate(e *c03Env, rnd *vh.Rand) error {
 		digest := g.setDigest()
 		d, d2 := g.chunkPair()
 		var st *c03Node
-		switch g.rnd.Intn(5) {
+		pick := g.rnd.Intn(5)
+		if e.s3Available() && g.rnd.Chance(1, 4) {
+			pick = 5
+		}
+		switch pick {
+		case 5: // a writable remote store as cache, failing: RepairableCache must pass the error on
+			st = g.wrap("cache", g.leaf("local", g.rnd.Bool(), false), g.wrap("repair", g.leaf("s3", g.rnd.Bool(), false)))
 		case 0:
 			st = g.leaf("http", g.rnd.Bool(), false)
 		case 1:
@@ -372,7 +395,7 @@ func c03Generate(e *c03Env, rnd *vh.Rand) error {
 			st = g.wrap("proto", g.leaf("local", g.rnd.Bool(), g.rnd.Bool()))
 		}
 		st.walk(func(n *c03Node) {
-			if n.T == "leaf" && n.Kind == "http" || n.T == "http" {
+			if n.T == "leaf" && (n.Kind == "http" || n.Kind == "s3") || n.T == "http" {
 				n.Retry = g.rnd.Intn(4)
 			}
 		})
@@ -390,6 +413,7 @@ func c03Generate(e *c03Env, rnd *vh.Rand) error {
 			return err
 		}
 	}
+	lap("D faults")
 	// E. the two ids with a special role in chunk.go: the all-zero id (what Chunk.ID returns
 	// when no data can be produced) and the id of the empty byte string
 	for _, special := range []string{"zero", "empty-data"} {
@@ -426,6 +450,7 @@ func c03Generate(e *c03Env, rnd *vh.Rand) error {
 			}
 		}
 	}
+	lap("E special ids")
 	return nil
 }
 
@@ -492,7 +517,7 @@ func (g *c03Gen) addFaults(c *c03Case) {
 		var t string
 		var k int
 		switch {
-		case n.T == "leaf" && n.Kind == "http":
+		case n.T == "leaf" && (n.Kind == "http" || n.Kind == "s3"):
 			t, k = "G", n.K
 		case n.T == "http" || n.T == "proto":
 			t, k = "N", n.Hop
@@ -508,7 +533,7 @@ func (g *c03Gen) addFaults(c *c03Case) {
 		switch x := g.rnd.Intn(6); {
 		case x < 3:
 			f.F = "io"
-		case x < 4 && t == "G":
+		case x < 4 && t == "G" && n.Kind == "http":
 			f.F = "rd"
 			f.Arg = fmt.Sprint(g.rnd.Intn(30))
 		default:
